@@ -21,6 +21,7 @@
 #include <fcntl.h>
 #include <unistd.h>
 #include <sys/mman.h>
+#include <csignal>
 
 #include "clipper2/clipper.core.h"
 
@@ -330,6 +331,15 @@ struct Ctx {
 
 void vf_case(vf::Ctx&, uint64_t index);
 void vf_replay(vf::Ctx&, const vf::Case&);
+#ifndef VF_NO_MAIN
+// per-case wall-clock watchdog: a case that does not return is a hang of the library (or of the oracle); the worker
+// exits with status 97 and the orchestrator reproduces the case alone before it believes anything
+static void vf_on_alarm(int) {
+  static const char msg[] = "VF-WATCHDOG time limit exceeded in one case\n";
+  ssize_t w = write(2, msg, sizeof msg - 1); (void)w;
+  _exit(97);
+}
+#endif
 void vf_begin(vf::Ctx&) __attribute__((weak));
 void vf_end(vf::Ctx&) __attribute__((weak));
 
@@ -367,8 +377,11 @@ int main(int argc, char** argv) {
       if (m != MAP_FAILED) { ctx.progress = (volatile int64_t*)m; *ctx.progress = -1; }
     }
   }
+  unsigned case_timeout = (unsigned)ctx.optint("case_timeout", 90);
+  signal(SIGALRM, vf_on_alarm);
   if (vf_begin) vf_begin(ctx);
   if (!ctx.replay_path.empty()) {
+    alarm(case_timeout * 4);
     std::ifstream f(ctx.replay_path);
     if (!f) { fprintf(stderr, "cannot open %s\n", ctx.replay_path.c_str()); return 2; }
     vf::Case c;
@@ -379,7 +392,9 @@ int main(int argc, char** argv) {
   } else if (ctx.only >= 0) {
     ctx.cur_index = (uint64_t)ctx.only;
     ctx.rng.reseed(ctx.seed, ctx.cur_index);
+    alarm(case_timeout * 4);
     vf_case(ctx, ctx.cur_index);
+    alarm(0);
   } else {
     for (uint64_t i = ctx.from; i < ctx.ncases; ++i) {
       // hashed shard assignment: uncorrelated with any "index modulo k" cycling a monitor uses
@@ -388,7 +403,9 @@ int main(int argc, char** argv) {
       ctx.cur_index = i;
       if (ctx.progress) *ctx.progress = (int64_t)i;
       ctx.rng.reseed(ctx.seed, i);
+      alarm(case_timeout);
       vf_case(ctx, i);
+      alarm(0);
     }
     if (ctx.progress) *ctx.progress = -2; // finished
   }
